@@ -76,3 +76,24 @@ Definition nstep (share : bool) (s : nsys) (l : nlabel) : nsys :=
 Definition nrun (share : bool) (s : nsys) (ls : list nlabel) : nsys := fold_left (nstep share) ls s.
 
 Definition nfresh (s : nsys) : bool := forallb thr_fresh (n_thrs s).
+
+(* ------------------------------------------------------------------ executable run with the SetCurrentRevision log *)
+(* what a step writes to the backend: a read inside SetCurrentRevision(v) finishing it — (value before, value written) *)
+Definition nstep_set (s : nsys) (l : nlabel) : list (N * N) :=
+  match l with
+  | NAdv => []
+  | NStep i =>
+      if (length (n_thrs s) <=? i)%nat then []
+      else match t_pc (nth_thr s i) with PInstalling v => [(n_frev s, v)] | _ => [] end
+  end.
+
+(* the SetCurrentRevision calls of a run, oldest first *)
+Fixpoint nsets (share : bool) (s : nsys) (ls : list nlabel) : list (N * N) :=
+  match ls with
+  | [] => []
+  | l :: ls' => nstep_set s l ++ nsets share (nstep share s l) ls'
+  end.
+
+(* the code as it is (shared flights, a joiner fetches again), n reads: final system and the set log *)
+Definition nrun_code (n : nat) (leader frev : N) (ls : list nlabel) : nsys * list (N * N) :=
+  (nrun true (n_init n leader frev) ls, nsets true (n_init n leader frev) ls).
